@@ -1,6 +1,8 @@
 import EdzedModel.Basic.Val
 import EdzedModel.Counter
+import EdzedModel.Cron
 import EdzedModel.Drv.Counter
+import EdzedModel.Drv.Cron
 import EdzedModel.Drv.Simulate
 import EdzedModel.Gen.Constants
 import EdzedModel.Simulate
